@@ -578,9 +578,40 @@ def _ev(out, budget, **kw):
     out.append(Inst(eval_ref, kw, budget=budget))
 
 
+@meta(bounds="datetime_to_time for a symbolic date (year 1970..2154, month, day 1..28) and time of day: the broken-down time it hands "
+             "to the C library's mktime (captured by a stand-in) is that local date and time with the daylight-saving field -1, "
+             "i.e. 'let the library decide' - any other value makes every transition of a schedule an hour late or early "
+             "during half of the year in a zone that observes daylight saving time (the other harnesses run in UTC, where the "
+             "field makes no difference)",
+      outside="what the C library's mktime does with the tuple",
+      stubs=["bacpypes.local.schedule._mktime -> capture"], assumes=[])
+def mktime_args(d):
+    import bacpypes.local.schedule as S
+    year = d.int(70, 254, 'year-1900')
+    month = d.int(1, 12, 'month')
+    day = d.int(1, 28, 'day')
+    hh, mm, ss = d.int(0, 23, 'hour'), d.int(0, 59, 'minute'), d.int(0, 59, 'second')
+    seen = []
+    real = S._mktime
+    S._mktime = lambda t: seen.append(tuple(t)) or 0.0
+    try:
+        S.datetime_to_time((year, month, day, 255 - 255 + 1), (hh, mm, ss, 0))
+    finally:
+        S._mktime = real
+    if len(seen) != 1 or len(seen[0]) != 9:
+        raise Violation("mktime-call", n=len(seen))
+    t = seen[0]
+    if tuple(t[:6]) != (year + 1900, month, day, hh, mm, ss):
+        raise Violation("mktime-fields", got=list(t[:6]), want=[year + 1900, month, day, hh, mm, ss])
+    if t[8] != -1:
+        raise Violation("mktime-daylight-saving-field", got=t[8], want=-1)
+    d.reach()
+
+
 def instances(tier):
     q = tier == "quick"
     out = []
+    out.append(Inst(mktime_args, {}, budget=60))
     U, SP = 'unspecified', 'specific'
     A = ['leapday', 'sunday', 'monday']
     P3 = [(1, 16), (16, 1), (8, 8)]
